@@ -245,7 +245,7 @@ Definition c11_ext_run (case obs : sx) : verdict :=
    failed in the middle of a stream go back to the pool and are reused.  case = (request ...), request =
      1                     not a gzip stream (bad header)                      -> no event, 400
      (0 #body)             gzip(body), delivered at once                       -> exact
-     (3 #body k)           gzip(body), the COMPRESSED bytes arrive k at a time -> exact
+     (3 #body k)           gzip(body), the COMPRESSED bytes arrive |k| at a time (k < 0: the last ones with io.EOF) -> exact
      (6 #b1 #b2)           two gzip members gzip(b1) ++ gzip(b2)               -> exact, body = b1 ++ b2 (multistream)
      (2 #body cut)         gzip(body) truncated to its first cut bytes         -> failing
      (4 #body cut k)       first cut compressed bytes (k at a time), then a read error -> failing
